@@ -16,11 +16,12 @@ Theorem C10_mapping_position :
 Proof. exact mapping_pos. Qed.
 Print Assumptions C10_mapping_position.
 
-(* D07: replace_import_in_module uses the ImportsID as the FunctionID: with a memory import in front, replacing
-   import #1 (the only function import, function index 0) looks at function 1, a local, and silently refuses *)
-Example C10_refuted_D07 :
+(* former D07 (replace_import_in_module used the ImportsID as the FunctionID: with a memory import in front,
+   replacing import #1 - the only function import, function index 0 - looked at function 1, a local, and silently
+   refused; repaired: the function is resolved through the import): the witness now satisfies the property *)
+Example C10_former_D07_witness_holds :
   let c := self_r [(2, 1); (0, 2)] [99] [] [] [ImportToLocal 1 31] [mkSite KCode SF 0 (OFunc 1)] in
-  agree c = true /\ dom_of (verdict10 c) = true /\ holds_of (verdict10 c) = false /\ known_D07 c = true.
+  agree c = true /\ dom_of (verdict10 c) = true /\ holds_of (verdict10 c) = true.
 Proof. vm_compute. repeat split; reflexivity. Qed.
 Example C10_nonvacuous :
   let c := self_r [(0, 1); (0, 2)] [11; 99] [] [] [ImportToLocal 1 31]
@@ -28,16 +29,17 @@ Example C10_nonvacuous :
   agree c = true /\ dom_of (verdict10 c) = true /\ holds_of (verdict10 c) = true.
 Proof. vm_compute. repeat split; reflexivity. Qed.
 
-(* ---- over every reachable state (Proofs/ReidxInv.v): after a successful replace_import_in_module of the
-   import item at function position k with a body of fingerprint fp, outside D02 the id k (which
-   every former use carries) is mapped to the index at which the emitted module has exactly that body.
-   (k is the function-space position: the API takes an ImportsID and uses it as one, D07.) *)
+(* ---- over every reachable state (Proofs/ReidxInv.v): after a successful replace_import_in_module of import
+   entry k with a body of fingerprint fp, outside D02 the function id p of the function that was this import (the id
+   every former use carries; it differs from k when non-function imports precede it: the function is resolved
+   through the import since the repair of D07) is mapped to the index at which the emitted module has exactly that
+   body. *)
 Theorem C10_replaced_import_id_designates_the_new_body :
-  forall m k fp m' r it, wf m -> Reindex.step m (ImportToLocal k fp) = Ok (m', r) ->
-  nthN (s_items (m_f m)) k = Some it -> is_import it = true ->
+  forall m k fp m' r p it, wf m -> Reindex.step m (ImportToLocal k fp) = Ok (m', r) ->
+  nthN (s_items (m_f m)) p = Some it -> it_imp it = Some k ->
   okD02 SF m' = true ->
   forall l mp, index_space (m_f m') = Ok (l, mp) ->
-  exists q, lookup mp k = Some q /\ nthN (space_of_model m' l SF) q = Some fp.
+  exists q, lookup mp p = Some q /\ nthN (space_of_model m' l SF) q = Some fp.
 Proof. exact i2l_binding. Qed.
 Print Assumptions C10_replaced_import_id_designates_the_new_body.
 Theorem C10_wf_is_an_invariant_of_every_edit :
